@@ -18,6 +18,10 @@ from ..world import Act, Store, snapshot, snap_diff
 
 ID = "C06"
 LEVEL = "fault_enumeration"
+LEVEL_TEXT = 'Fault enumeration relative to each explored run: every split iteration k reached by the run is a stop/restart fault (zero-iteration restart, one-iteration restart, reduced maxcor, chains up to 4), over a seeded swarm of problems and configurations. Complete per run, sampled over runs - the right level for a property quantified over all split points of all histories.'
+LEVEL_NOTE = "Trusts the uninterrupted run of the same code as the reference; 'up to rounding' is calibrated by restarts from rounding-perturbed checkpoints (DESIGN 7.2); NumPy/SciPy/pickle are real and trusted."
+TECHNIQUE = 'deterministic simulation: planned-stop/restart fault at every split, reference = uninterrupted run'
+DESIGN_REF = 'DESIGN.md 4.4, 7.2'
 BUDGET = {
     "quick": {"plans": 320, "wall": 75, "chunk": 4},
     "thorough": {"plans": 20000, "wall": 900, "chunk": 8},
@@ -69,6 +73,8 @@ def execute(plan):
     spec = plan["problem"]
 
     def key(k, npairs, kind, verdict):
+        if npairs < 1:
+            return
         keys.add(
             "%s|%s|%d|%d|%g|%d|%d|%s|%s"
             % (spec["family"], spec["box"], spec["n"], cfg["maxcor"], cfg["eps_SY"], k, npairs, kind, verdict)
